@@ -32,6 +32,25 @@ THEOREMS = [
     "ProbLogProofs.C09.C09_clark_carry",
 ]
 
+MODULE_CYCLES = "ProbLogProofs.Properties.C09Cycles"
+THEOREMS_CYCLES = [
+    "ProbLogProofs.C09.C09_cutEval_iff_der",
+    "ProbLogProofs.C09.C09_cutEval_fuel_irrelevant",
+    "ProbLogProofs.C09.C09_loop_cut_definite",
+    "ProbLogProofs.C09.C09_lfp_stage_der",
+    "ProbLogProofs.C09.C09_cutEval_eq_lfp",
+    "ProbLogProofs.C09.C09_lfp_stable",
+    "ProbLogProofs.C09.C09_lfp_fixpoint_conj",
+    "ProbLogProofs.C09.C09_lfp_fixpoint_disj",
+    "ProbLogProofs.C09.C09_lfp_least",
+    "ProbLogProofs.C09.C09_cutEval_eq_reduct_lfp",
+    "ProbLogProofs.C09.C09_cut_stable_model",
+    "ProbLogProofs.C09.C09_stable_model_unique",
+    "ProbLogProofs.C09.C09_loop_cut_stratified",
+    "ProbLogProofs.C09.C09_positive_is_stratified",
+]
+REFUTATIONS_CYCLES = ["ProbLogProofs.C09.C09_cutEval_eq_lfp_needs_positive", "ProbLogProofs.C09.C09_exNeg_not_stratified"]
+
 MANIFEST = {
     "level": "proof",
     "technique": "Lean 4 theorems about hand-written models of cycles.py and clarks_completion + exact correspondence "
@@ -237,6 +256,7 @@ def run(ctx):
                 "propagation) and and/or graphs built directly through the LogicFormula API; distinct = distinct "
                 "serialised source store; non-trivial = at least one compound node")
     ctx.proof_phase(MODULE, THEOREMS)
+    ctx.proof_phase(MODULE_CYCLES, THEOREMS_CYCLES, refutations=REFUTATIONS_CYCLES)
     drv = ctx.driver("Drivers.Spine")
     rng = ctx.sub_rng("programs")
     nprog = ctx.budget(150, 3000)
